@@ -205,17 +205,6 @@ impl<T: Sync + Send + 'static> Worker<T> {
         if self.pattern.is_empty() {
             self.reset_matches();
             self.process_new_items_trivial();
-            #[cfg(nucleo_verif)]
-            crate::verif::hit(
-                "run.notify_check",
-                0,
-                [
-                    1,
-                    self.last_snapshot as u64,
-                    self.in_flight.len() as u64,
-                    self.matches.len() as u64,
-                ],
-            );
             if self.should_notify.load(atomic::Ordering::Relaxed) {
                 (self.notify)();
             }
@@ -327,17 +316,6 @@ impl<T: Sync + Send + 'static> Worker<T> {
         } else {
             self.matches
                 .truncate(self.matches.len() - take(unmatched.get_mut()) as usize);
-            #[cfg(nucleo_verif)]
-            crate::verif::hit(
-                "run.notify_check",
-                0,
-                [
-                    0,
-                    self.last_snapshot as u64,
-                    self.in_flight.len() as u64,
-                    self.matches.len() as u64,
-                ],
-            );
             if self.should_notify.load(atomic::Ordering::Relaxed) {
                 (self.notify)();
             }
